@@ -13,8 +13,8 @@ def main():
     jobs = json.load(open(sys.argv[1]))
     out = []
     for job in jobs:
-        first = c04_obs.observe(job["folder"], job["names"], job.get("xarray", True))
-        second = c04_obs.observe(job["folder"], job["names"], job.get("xarray", True))
+        first = c04_obs.observe(job["folder"], job["names"], job.get("xarray", True), job.get("subset"))
+        second = c04_obs.observe(job["folder"], job["names"], job.get("xarray", True), job.get("subset"))
         out.append({"first": first, "second": second})
     with open(sys.argv[2], "w") as f:
         json.dump({"pid_children": len(multiprocessing.active_children()), "results": out}, f)
